@@ -32,6 +32,7 @@ Theorem dec_begin_guard ep x probes :
   | GErr e => snd (dec_decode junk ep x probes) = RError e
   | GOk 0 => dw_orecv (d_work x) = dw_K (d_work x) /\ exists pr, snd (dec_decode junk ep x probes) = RDec [] pr
   | GOk _ => dw_orecv (d_work x) <> dw_K (d_work x) /\ exists it pr, snd (dec_decode junk ep x probes) = RDec it pr
+  | _ => False
   end.
 Proof.
   unfold gen_dec_begin, dec_decode. destruct (dw_orecv (d_work x) + dw_rrecv (d_work x) <? dw_K (d_work x)); [reflexivity|].
@@ -58,3 +59,45 @@ Proof.
   cbv zeta. destruct (pmem (dw_received (d_work x)) (dw_rbase (d_work x) + i)); [reflexivity|].
   destruct (negb (blen s =? dw_sb (d_work x))); reflexivity.
 Qed.
+
+(* ---------- accessors: recovery(i) and restored_original(i) ---------- *)
+Section Acc.
+Variable junk : N -> N -> N -> N.
+
+Definition enc_recovery_of (rec : list bytes) (R sb i : N) : option bytes :=
+  match gen_enc_recovery R sb i with GSome pos _ => nth_error rec (N.to_nat pos) | _ => None end.
+
+Theorem enc_recovery_guard ep x probes : ew_recv (e_work x) = ew_K (e_work x) ->
+  snd (enc_encode junk ep x probes) =
+  REnc (encode_shards junk ep x)
+       (map (fun i => (i, enc_recovery_of (encode_shards junk ep x) (ew_R (e_work x)) (ew_sb (e_work x)) i)) probes).
+Proof.
+  intros H. unfold enc_encode. rewrite H, N.eqb_refl. cbn [negb snd]. f_equal. apply map_ext. intros i.
+  unfold enc_recovery_of, gen_enc_recovery. destruct (i <? ew_R (e_work x)); reflexivity.
+Qed.
+
+Definition dec_restored_of (out : list (list N)) (obase K sb : N) (recv : N -> bool) (i : N) : option bytes :=
+  match gen_dec_restored obase K sb i recv with
+  | GSome pos _ => option_map bytes_of_syms (nth_error out (N.to_nat pos))
+  | _ => None
+  end.
+
+Theorem dec_restored_guard ep x probes :
+  (dw_orecv (d_work x) + dw_rrecv (d_work x) <? dw_K (d_work x)) = false -> (dw_orecv (d_work x) =? dw_K (d_work x)) = false ->
+  let w := d_work x in
+  let r := dec_restored_of (decode_work junk ep x) (dw_obase w) (dw_K w) (dw_sb w) (pmem (dw_received w)) in
+  snd (dec_decode junk ep x probes) =
+  RDec (flat_map (fun i => match r i with Some b => [(i, b)] | None => [] end) (range 0 (dw_K w)))
+       (map (fun i => (i, r i)) probes).
+Proof.
+  intros H1 H2. cbv zeta. unfold dec_decode. rewrite H1, H2. cbn [snd].
+  set (w := d_work x).
+  set (r := dec_restored_of (decode_work junk ep x) (dw_obase w) (dw_K w) (dw_sb w) (pmem (dw_received w))).
+  assert (E : forall i, (if (i <? dw_K w) && negb (pmem (dw_received w) (dw_obase w + i))
+                         then option_map bytes_of_syms (nth_error (decode_work junk ep x) (N.to_nat (dw_obase w + i))) else None) = r i).
+  { intros i. unfold r, dec_restored_of, gen_dec_restored. rewrite (N.ltb_antisym (dw_K w) i).
+    destruct (dw_K w <=? i); cbn [negb andb]; [reflexivity|]. cbv zeta.
+    destruct (pmem (dw_received w) (dw_obase w + i)); reflexivity. }
+  f_equal; [apply flat_map_ext|apply map_ext]; intros i; rewrite E; reflexivity.
+Qed.
+End Acc.
